@@ -53,6 +53,35 @@ def build_probe():
     return PROBE_BIN
 
 
+PROBE_ASAN = os.path.join(BUILD, "probe-asan", "x86_64-unknown-linux-gnu", "debug", "p2sh-probe")
+
+
+def build_probe_asan():
+    """The probe under AddressSanitizer (nightly, no build-std needed for ASan on this image)."""
+    lock_src = os.path.join(REPO, "Cargo.lock")
+    if os.path.exists(lock_src):
+        shutil.copyfile(lock_src, os.path.join(PROBE_DIR, "Cargo.lock"))
+    e = dict(CARGO_ENV, RUSTFLAGS="--cfg p2sh_verif -Zsanitizer=address -Cforce-frame-pointers=yes")
+    _cargo(["+nightly", "build", "--target", "x86_64-unknown-linux-gnu"], PROBE_DIR, os.path.join(BUILD, "probe-asan"), env=e)
+    return PROBE_ASAN
+
+
+def repo_has_unsafe():
+    """Does the tree under test contain an `unsafe` block / fn / impl outside comments? (adaptive trigger, DESIGN section 8)"""
+    import re
+    hits = []
+    for root, _, files in os.walk(os.path.join(REPO, "src")):
+        for fn in files:
+            if fn.endswith(".rs"):
+                p = os.path.join(root, fn)
+                with open(p, "r", errors="replace") as f:
+                    for n, line in enumerate(f, 1):
+                        code = line.split("//")[0]
+                        if re.search(r"\bunsafe\b", code):
+                            hits.append("%s:%d" % (os.path.relpath(p, REPO), n))
+    return hits
+
+
 def build_p2sh(release=False):
     """(Re)build the real binary, hooks on, from /repo's current working tree."""
     args = ["build"] + (["--release"] if release else [])
@@ -111,7 +140,7 @@ class Case:
         return ("%s %s %d %s\n" % (self.cmd, self.id, len(body), fl)).encode("utf-8") + body + b"\n"
 
 
-def _run_shard(cases, workdir, shard_no, timeout_per_shard, env=None, max_hangs=None):
+def _run_shard(cases, workdir, shard_no, timeout_per_shard, env=None, max_hangs=None, probe_cmd=None, san_log=None):
     """Feed `cases` to one probe process (restarting after a death or a hang).
     Returns {id: result-dict}. After `max_hangs` hangs the remaining cases are skipped."""
     results = {}
@@ -132,7 +161,7 @@ def _run_shard(cases, workdir, shard_no, timeout_per_shard, env=None, max_hangs=
                 f.write(c.encode())
         timed_out = False
         with open(inp, "rb") as fi, open(outp, "wb") as fo:
-            p = subprocess.Popen([PROBE_BIN], stdin=fi, stdout=fo, stderr=subprocess.DEVNULL,
+            p = subprocess.Popen(probe_cmd or [PROBE_BIN], stdin=fi, stdout=fo, stderr=subprocess.DEVNULL,
                                  env=env or os.environ, cwd=run_cwd())
             try:
                 rc = p.wait(timeout=timeout_per_shard)
@@ -158,6 +187,13 @@ def _run_shard(cases, workdir, shard_no, timeout_per_shard, env=None, max_hangs=
                         pass
         os.unlink(inp)
         os.unlink(outp)
+        san_report = None
+        if san_log:
+            lp = "%s.%d" % (san_log, p.pid)
+            if os.path.exists(lp):
+                with open(lp, "r", errors="replace") as f:
+                    san_report = f.read()
+                os.unlink(lp)
         # where did we stop?
         ids = [c.id for c in chunk]
         if begun is not None and begun in ids:
@@ -167,6 +203,8 @@ def _run_shard(cases, workdir, shard_no, timeout_per_shard, env=None, max_hangs=
                 results[begun] = {"id": begun, "outcome": "hang", "stage": "?"}
             else:
                 results[begun] = {"id": begun, "outcome": "died", "stage": "?", "rc": rc}
+            if san_report:
+                results[begun]["san"] = san_report
             pos += k + 1
         else:
             ndone = 0
@@ -189,7 +227,7 @@ def _run_shard(cases, workdir, shard_no, timeout_per_shard, env=None, max_hangs=
     return results
 
 
-def run_cases(cases, shards=None, timeout=None, env=None, max_hangs=None):
+def run_cases(cases, shards=None, timeout=None, env=None, max_hangs=None, probe_cmd=None, san_log=None):
     """Run probe cases on up to `shards` worker processes. Returns {id: result}."""
     if not cases:
         return {}
@@ -202,7 +240,7 @@ def run_cases(cases, shards=None, timeout=None, env=None, max_hangs=None):
     try:
         def one(i):
             t = timeout or (60 + 0.02 * len(buckets[i]))
-            return _run_shard(buckets[i], work, i, t, env, max_hangs)
+            return _run_shard(buckets[i], work, i, t, env, max_hangs, probe_cmd, san_log)
         out = {}
         with ThreadPoolExecutor(max_workers=shards) as ex:
             for r in ex.map(one, range(shards)):
